@@ -24,7 +24,10 @@ MODELLED = c02.MODELLED
 class PipeNoHaz(c02.Pipe):
     name = "pipe-nohaz"
     hazards = False
-    names = c02.PIPE_NAMES + ["cycles", "stalls", "flushes"]
+    names = c02.PIPE_NAMES + ["cycles", "stalls", "flushes", "dstats", "istats"]
+
+    def with_caches(self, rng):
+        return rng.random() < 0.3          # the interlock-free pipeline with data / instruction caches, too
 
     def required_classes(self, tier):
         return ["end:done", "end:fault", "flushed", "prints", "exit-ecall", "taken-branch", "jal"]
